@@ -79,6 +79,7 @@ CANARIES = [
     ('filter-buckets-readonly-handle', 'C08', 'src/cursor.rs', '                            writable: self.writable,\n                            freelist: self.freelist.clone(),\n                            inner: r,', '                            writable: true,\n                            freelist: self.freelist.clone(),\n                            inner: r,'),
     ('cursor-next-repeats-entry', 'C08', 'src/cursor.rs', '        } else if self.next_called && !self.advance() {', '        } else if false && !self.advance() {'),
     ('cursor-search-wrong-child', 'C08', 'src/cursor.rs', '        let next_page_id = page_node.index_page(index);', '        let next_page_id = page_node.index_page(0);'),
+    ('cursor-skip-loop-spins', 'C08', 'src/cursor.rs', '        while self.on_emptied_leaf() {\n            if !self.advance() {\n                return None;\n            }\n        }', '        while self.on_emptied_leaf() {\n            if self.stack.is_empty() {\n                return None;\n            }\n        }'),
     ('cursor-stops-at-emptied-leaf', 'C07', 'src/cursor.rs', '        while self.on_emptied_leaf() {', '        while false {'),
     ('cursor-skips-one-entry-leaf', 'C07', 'src/cursor.rs', '                n.leaf() && e.index >= n.len()', '                n.leaf() && e.index + 1 >= n.len()'),
     ('cursor-advance-reports-end-early', 'C08', 'src/cursor.rs', '            self.seek_first();\n            return true;', '            self.seek_first();\n            return false;'),
